@@ -481,3 +481,199 @@ Section PT.
     - right. exists c, v, k. repeat split; auto. now apply norm_of_nonempty.
   Qed.
 End PT.
+
+(* ================================================================ the log-in page (interactive authentication):
+   request -> query of the page -> request rebuilt by the application *)
+From Verif Require Lib.Qs Proofs.Qs_proofs.
+
+Lemma assoc_app {V} k (a b : list (pystr * V)) :
+  assoc k (a ++ b) = match assoc k a with Some v => Some v | None => assoc k b end.
+Proof. induction a as [|[k' v'] r IH]; cbn; [reflexivity|]. destruct (str_eqb k k'); [reflexivity|exact IH]. Qed.
+
+(* a per-parameter map of the values: looking a name up afterwards = mapping what was there before *)
+Lemma assoc_map_val {V W} (f : pystr -> V -> W) k (r : list (pystr * V)) :
+  assoc k (map (fun kv => (fst kv, f (fst kv) (snd kv))) r) = option_map (f k) (assoc k r).
+Proof.
+  induction r as [|[k' v'] r IH]; cbn; [reflexivity|].
+  destruct (str_eqb k k') eqn:E; [|exact IH]. apply str_eqb_eq in E. now subst.
+Qed.
+
+Definition values_nonempty (r : rparams) : bool := forallb (fun kv => Qs.nonempty (ser (snd kv))) r.
+
+Lemma wire_nonempty r : values_nonempty r = true -> forallb (fun kv => Qs.nonempty (snd kv)) (wire r) = true.
+Proof.
+  unfold values_nonempty, wire. induction r as [|[k v] r IH]; cbn; [reflexivity|].
+  intro H. apply andb_true_iff in H as [H1 H2]. now rewrite H1, IH.
+Qed.
+
+(* the whole round trip is a per-parameter map: nothing is dropped, nothing is added, order is kept *)
+Lemma resume_is_map lists r q :
+  to_query r = Some q -> values_nonempty r = true ->
+  resume lists r = Ok (map (fun kv => (fst kv, deser lists (fst kv) (ser (snd kv)))) r).
+Proof.
+  intros Hq Hv. unfold resume. rewrite Hq. unfold from_query, to_query in *.
+  rewrite (Qs_proofs.parse_qsl_urlencode _ _ Hq (wire_nonempty _ Hv)). cbn [bind].
+  unfold wire. rewrite map_map. reflexivity.
+Qed.
+
+(* a parameter the class does not declare with a list type - in particular every extension parameter - comes back
+   with the text it went in with *)
+Lemma resume_param lists r q k :
+  to_query r = Some q -> values_nonempty r = true -> str_in k lists = false ->
+  forall r', resume lists r = Ok r' -> option_map ser (assoc k r') = option_map ser (assoc k r).
+Proof.
+  intros Hq Hv Hk r' Hr. rewrite (resume_is_map _ _ _ Hq Hv) in Hr. inversion Hr; subst r'. clear Hr.
+  rewrite (assoc_map_val (fun k v => deser lists k (ser v))).
+  destruct (assoc k r) as [v|]; [|reflexivity]. cbn [option_map]. unfold deser. rewrite Hk. reflexivity.
+Qed.
+
+Lemma resume_pair lists r q r' :
+  str_in k_cc lists = false -> str_in k_ccm lists = false ->
+  to_query r = Some q -> values_nonempty r = true ->
+  resume lists r = Ok r' -> qpair r' = qpair r.
+Proof.
+  intros H1 H2 Hq Hv Hr. unfold qpair.
+  now rewrite (resume_param _ _ _ _ Hq Hv H1 _ Hr), (resume_param _ _ _ _ Hq Hv H2 _ Hr).
+Qed.
+
+Lemma k_cc_ne_ccm : str_eqb k_cc k_ccm = false /\ str_eqb k_ccm k_cc = false.
+Proof. split; vm_compute; reflexivity. Qed.
+
+(* the pair the held request carries is what post_authn_parse left *)
+Lemma qpair_held others st :
+  assoc k_cc others = None -> assoc k_ccm others = None -> qpair (held others st) = (fst st, Some (snd st)).
+Proof.
+  intros H1 H2. destruct k_cc_ne_ccm as [N1 N2]. unfold qpair, held. rewrite !assoc_app, H1, H2.
+  destruct (fst st) as [c|]; cbn [assoc app]; rewrite ?str_eqb_refl, ?N1, ?N2; reflexivity.
+Qed.
+
+Lemma held_values_nonempty others st :
+  values_nonempty others = true -> norm (fst st) = fst st -> snd st <> [] -> values_nonempty (held others st) = true.
+Proof.
+  intros Ho Hc Hm. unfold values_nonempty, held. rewrite !forallb_app. fold (values_nonempty others). rewrite Ho.
+  cbn [andb]. apply andb_true_iff. split.
+  - destruct (fst st) as [[|a c]|]; [discriminate|reflexivity|reflexivity].
+  - cbn. destruct (snd st); [congruence|reflexivity].
+Qed.
+
+Lemma recorded_method_nonempty ccm : recorded_method ccm <> [].
+Proof.
+  unfold recorded_method. destruct ccm as [[|a m]|]; cbn [norm]; try discriminate; vm_compute; discriminate.
+Qed.
+
+Lemma recorded_d_normal cf ce d st :
+  recorded_d cf ce d = Ok st -> norm (fst st) = fst st /\ snd st <> [].
+Proof.
+  unfold recorded_d. intro H. destruct (authn_leg_ok _ _ _ _ _ H) as (-> & _ & _). cbn [fst snd].
+  split; [apply norm_idem|apply recorded_method_nonempty].
+Qed.
+
+(* side conditions of the round trip: the other parameters carry text and do not themselves spell a PKCE parameter;
+   the request class does not declare the PKCE parameters with a list type; the page's query can be written *)
+Definition resumable (lists : list pystr) (others : rparams) : Prop :=
+  str_in k_cc lists = false /\ str_in k_ccm lists = false
+  /\ assoc k_cc others = None /\ assoc k_ccm others = None /\ values_nonempty others = true.
+
+(* THE statement of this part: the pair recorded for the code minted after the log-in page is the pair
+   post_authn_parse accepted for the authorization request that led to the page *)
+Lemma recorded_i_is_request_pair cf ce d lists others st q :
+  resumable lists others -> recorded_d cf ce d = Ok st -> to_query (held others st) = Some q ->
+  recorded_i cf ce d lists others = Ok (fst st, Some (snd st)).
+Proof.
+  intros (L1 & L2 & O1 & O2 & Ov) Hd Hq. unfold recorded_i. rewrite Hd. cbn [bind].
+  destruct (recorded_d_normal _ _ _ _ Hd) as [Nc Nm].
+  pose proof (held_values_nonempty _ _ Ov Nc Nm) as Hv.
+  rewrite (resume_is_map _ _ _ Hq Hv). cbn [bind].
+  erewrite resume_pair; [| exact L1 | exact L2 | exact Hq | exact Hv | apply (resume_is_map _ _ _ Hq Hv)].
+  now rewrite qpair_held.
+Qed.
+
+Section PI.
+  Variable HB : N -> pystr -> pystr.
+
+  Lemma token_leg_q_stored st cv t : token_leg_q HB (fst st, Some (snd st)) cv t = token_leg HB st cv t.
+  Proof. destruct st as [[c|] m]; reflexivity. Qed.
+
+  (* an interactive flow is judged exactly like the same request answered without a log-in page *)
+  Lemma flow_i_is_flow_d cf ce d lists others cv t :
+    resumable lists others ->
+    (forall st, recorded_d cf ce d = Ok st -> to_query (held others st) <> None) ->
+    flow_i HB cf ce d lists others cv t = flow_d HB cf ce d cv t.
+  Proof.
+    intros R Hq. unfold flow_i, flow_d, flow. fold (recorded_d cf ce d).
+    destruct (recorded_d cf ce d) as [st|e|] eqn:Hd; try reflexivity.
+    specialize (Hq st eq_refl). destruct (to_query (held others st)) as [q|] eqn:Eq; [|congruence].
+    pose proof (recorded_i_is_request_pair _ _ _ _ _ _ _ R Hd Eq) as Hr. unfold recorded_i in Hr. rewrite Hd in Hr.
+    cbn [bind] in Hr. destruct (resume lists (held others st)) as [r'|e|]; cbn [bind] in Hr; try discriminate.
+    assert (Hp : qpair r' = (fst st, Some (snd st))) by congruence.
+    rewrite Hp, token_leg_q_stored. reflexivity.
+  Qed.
+
+  Lemma resumed_tokens_iff cf ce d lists others cv t :
+    resumable lists others ->
+    (forall st, recorded_d cf ce d = Ok st -> to_query (held others st) <> None) ->
+    (flow_i HB cf ce d lists others cv t = Tokens <->
+     recorded_d cf ce d = Ok (fst (assembled d), recorded_method (snd (assembled d)))
+     /\ (fst (assembled d) = None \/
+         exists c v k, fst (assembled d) = Some c /\ norm cv = Some v
+                       /\ assoc (recorded_method (snd (assembled d))) server_cc_methods = Some k /\ tr HB k v = Ok c)).
+  Proof.
+    intros R Hq. rewrite (flow_i_is_flow_d _ _ _ _ _ _ _ R Hq). unfold flow_d, recorded_d.
+    rewrite tokens_iff, norm_fst_assembled. reflexivity.
+  Qed.
+
+  Lemma resumed_bound cf ce d lists others cv t c :
+    resumable lists others ->
+    (forall st, recorded_d cf ce d = Ok st -> to_query (held others st) <> None) ->
+    fst (assembled d) = Some c -> flow_i HB cf ce d lists others cv t = Tokens ->
+    exists v k, norm cv = Some v
+                /\ assoc (recorded_method (snd (assembled d))) server_cc_methods = Some k /\ tr HB k v = Ok c.
+  Proof.
+    intros R Hq Hc Hf. apply (resumed_tokens_iff _ _ _ _ _ _ _ R Hq) in Hf as [_ [Hn|(c' & v & k & Hc' & Hv & Hk & Ht)]].
+    - congruence.
+    - rewrite Hc in Hc'. inversion Hc'; subst. eauto.
+  Qed.
+
+  Lemma resumed_missing_verifier_refused cf ce d lists others cv t c :
+    resumable lists others ->
+    (forall st, recorded_d cf ce d = Ok st -> to_query (held others st) <> None) ->
+    fst (assembled d) = Some c -> norm cv = None ->
+    flow_i HB cf ce d lists others cv t = AzRefused 2 \/ flow_i HB cf ce d lists others cv t = TkRefused 3.
+  Proof.
+    intros R Hq Hc Hv. rewrite (flow_i_is_flow_d _ _ _ _ _ _ _ R Hq). unfold flow_d.
+    eapply missing_verifier_refused; [|exact Hv]. rewrite norm_fst_assembled. exact Hc.
+  Qed.
+
+  Lemma resumed_wrong_verifier_refused cf ce d lists others cv t c v :
+    resumable lists others ->
+    (forall st, recorded_d cf ce d = Ok st -> to_query (held others st) <> None) ->
+    fst (assembled d) = Some c -> norm cv = Some v ->
+    (forall k, assoc (recorded_method (snd (assembled d))) server_cc_methods = Some k -> tr HB k v <> Ok c) ->
+    flow_i HB cf ce d lists others cv t <> Tokens.
+  Proof.
+    intros R Hq Hc Hv Hw Hf. destruct (resumed_bound _ _ _ _ _ _ _ _ R Hq Hc Hf) as (v' & k & Hv' & Hk & Ht).
+    rewrite Hv in Hv'. inversion Hv'; subst. exact (Hw _ Hk Ht).
+  Qed.
+
+  (* the other parameters of the request, and which of them the class declares as lists, have no say *)
+  Lemma resumed_others_irrelevant cf ce d lists others lists' others' cv t :
+    resumable lists others -> resumable lists' others' ->
+    (forall st, recorded_d cf ce d = Ok st -> to_query (held others st) <> None) ->
+    (forall st, recorded_d cf ce d = Ok st -> to_query (held others' st) <> None) ->
+    flow_i HB cf ce d lists others cv t = flow_i HB cf ce d lists' others' cv t.
+  Proof. intros R R' Hq Hq'. now rewrite !flow_i_is_flow_d. Qed.
+End PI.
+
+(* a page whose query is written from the DECLARED parameters only loses the binding: the guard "every parameter the
+   request holds is written" of resume_is_map is what carries the theorem.  declared_only is what such a page does. *)
+Definition declared_only (declared : list pystr) (r : rparams) : rparams :=
+  filter (fun kv => str_in (fst kv) declared) r.
+Lemma declared_only_drops_pair declared r :
+  str_in k_cc declared = false -> fst (qpair (declared_only declared r)) = None.
+Proof.
+  intro H. unfold qpair, declared_only. cbn [fst].
+  assert (assoc k_cc (filter (fun kv => str_in (fst kv) declared) r) = None) as ->; [|reflexivity].
+  induction r as [|[k v] r IH]; [reflexivity|]. cbn [filter fst].
+  destruct (str_in k declared) eqn:E; [|exact IH]. cbn [assoc].
+  destruct (str_eqb k_cc k) eqn:E2; [|exact IH]. apply str_eqb_eq in E2. subst. congruence.
+Qed.
